@@ -27,7 +27,7 @@ var c05Cache = []int{1, 2, 3, 8, 64, 0}
 func init() {
 	Registry["C05"] = &Prop{
 		Plan: func(tier string) Plan {
-			return Plan{Level: "exploration", NCases: pick(tier, 120, 9000), Batch: 6, CaseTimeout: 180,
+			return Plan{Level: "exploration", NCases: pick(tier, 120, 9000), Batch: 6, CaseTimeout: 90,
 				Rule: "case kinds: (stress) one writer issuing successful and failing writes over 4 prefixes while 4-10 watchers register with start revisions {0, below oldest cached, oldest, inside, newest, newest+1, far future}, event-cache sizes {1,2,3,8,64,default} (ring wraps under live watches), consumers fast/slow/stalled-then-resumed; " +
 					"(placement) a hook blocks the registering watcher after subscription or after the cache read until exactly k more writes were committed, or blocks the sequencer before the cache insert / before the broadcast while a watcher registers; " +
 					"(overflow) a stalled consumer until the 100+10000 batch buffers are full, then the removal of the slow subscriber is held at its entry hook while the consumer frees one slot and one more batch is fanned out; also the same without any hook. " +
